@@ -193,6 +193,10 @@ def is_missing(x):
     return x is None or (isinstance(x, float) and math.isnan(x)) or x is pd.NA
 
 
+NEAR_STD = ["TRBV_raw", "CDR3B_nt", "Epitope_species", "MHCA_class", "TRBJ2", "xTRAV", "cdr3a", "TRAJ ", "MHCB.1"]
+NEAR_STD_CELLS = ["TCRBV28S1*01", "trbv7-2*01", "casslgf", "HLA-A*02:01:01", "bj1.5*1", "junk 1", "TRAV1-2*01", "tgtgccagc"]
+
+
 def build_std_table(case):
     cols = case["columns"]           # list of {"std": name, "name": actual column name}
     rows = case["rows"]              # list of lists of cell (str | None | "<nan>")
@@ -204,7 +208,11 @@ def build_std_table(case):
             vals.append(np.nan if v == "<nan>" else v)
         data[c["name"]] = pd.Series(vals, dtype=object)
     for e in case.get("extra", []):
-        data[e] = pd.Series([f"{e}{i}" if e != "clone_count" else i for i in range(len(rows))])
+        if e in NEAR_STD:
+            # a non-standard column whose NAME merely resembles a standard one; its cells are texts a cleaner would rewrite or drop
+            data[e] = pd.Series([NEAR_STD_CELLS[(i + len(e)) % len(NEAR_STD_CELLS)] for i in range(len(rows))], dtype=object)
+        else:
+            data[e] = pd.Series([f"{e}{i}" if e != "clone_count" else i for i in range(len(rows))])
     df = pd.DataFrame(data)
     order = case.get("col_order")
     if order:
@@ -256,12 +264,17 @@ def check_standardize(case, rec):
               case.get("index", "default")])
     before = df.copy(deep=True)
     kw = std_kwargs(case)
-    if mapper:
-        kw["col_mapper"] = dict(mapper)
-    mapper_before = dict(mapper)
+    passed = dict(mapper)
+    if case.get("mapper_absent") == "absent_keys":
+        passed.update({"v_call_b (absent)": "TRBV", "junction_aa (absent)": "CDR3B", "antigen (absent)": "Epitope", 17: "MHCA"})
+    if passed or case.get("mapper_absent") == "empty":
+        kw["col_mapper"] = dict(passed)
+    mapper_before = dict(passed)
     out = call("standardize_dataframe", pyrepseq.standardize_dataframe, df, **kw)
     if not (before.equals(df) and list(before.columns) == list(df.columns) and before.index.equals(df.index)):
         raise Violation("standardize-mutates-input", "the caller's table changed")
+    if "col_mapper" in kw and kw["col_mapper"] != mapper_before:
+        raise Violation("standardize-mutates-mapper", f"the caller's col_mapper changed: {kw['col_mapper']!r}")
     want_cols = [mapper.get(c, c) for c in df.columns]
     if list(out.columns) != want_cols:
         raise Violation("standardize-columns", f"columns {list(out.columns)} != {want_cols}")
@@ -333,8 +346,11 @@ def std_case(draw, tier="quick"):
             if ca and cb:
                 ca[0]["name"], cb[0]["name"] = b, a
                 break
-    case = {"columns": cols, "rows": rows, "options": opts, "extra": draw(st.lists(st.sampled_from(["clone_count", "sample", "note"]), unique=True, max_size=3)),
+    case = {"columns": cols, "rows": rows, "options": opts, "extra": draw(st.lists(st.sampled_from(["clone_count", "sample", "note"] + NEAR_STD), unique=True, max_size=4)),
             "index": draw(st.sampled_from(["default", "str", "rev", "dup", "mixed"]))}
+    # a mapping that (also) names columns this table does not have: {} or a general raw-name -> standard-name mapper applied
+    # to a table that already uses (some of) the standard names; pandas' rename ignores the absent keys
+    case["mapper_absent"] = draw(st.sampled_from(["none", "none", "empty", "absent_keys"]))
     if draw(st.booleans()):
         j = draw(st.integers(0, k - 1))
         case["change"] = {"row": draw(st.integers(0, n - 1)), "col": j, "value": draw(st.sampled_from(POOLS[cols[j]["std"]]))}
